@@ -5,7 +5,7 @@
    silently; `Print Assumptions` lists the axioms it depends on (none are declared by this development). *)
 From Coq Require Import NArith List Bool String.
 From Octo Require Import Base.Bytes Crypto.Prims Lib.Framed Lib.Canon Model.Address Model.NonceGen Model.SsChunk Model.SsTcp Model.Trojan Model.Socks5 Model.Http Generated.Params Generated.Shared
-  Proofs.AddressFacts Proofs.NonceFacts Proofs.SsChunkRoundtrip Proofs.SsChunkCanon Proofs.SsTcpSafety Proofs.SsTcpRoundtrip Proofs.CodecLemmas Proofs.TrojanFacts Proofs.Socks5Facts Proofs.HttpFacts.
+  Proofs.AddressFacts Proofs.NonceFacts Proofs.SsChunkRoundtrip Proofs.SsChunkCanon Proofs.SsTcpSafety Proofs.SsTcpRoundtrip Proofs.CodecLemmas Proofs.TrojanFacts Proofs.Socks5Facts Proofs.HttpFacts Model.Vmess Proofs.VmessSafety Proofs.VmessFacts Model.SsUdp Proofs.SsUdpFacts.
 Import ListNotations.
 Set Printing Width 200.
 
@@ -71,6 +71,34 @@ Proof. vm_compute. reflexivity. Qed.
 Theorem C03_legacy_limit_is_spec : (LEGACY_PAYLOAD_LIMIT <= 16383)%N.
 Proof. vm_compute. discriminate. Qed.
 
+(* VMess body stream round trip, all 32 option masks, both securities, lockstep *)
+Definition C03_vmess_body_stream := @body_new_roundtrip_stream.
+(* VMess packet mode round trip (whole datagram) *)
+Definition C03_vmess_body_packet := @body_new_roundtrip_packet.
+(* a datagram that does not fit one chunk is refused, never truncated *)
+Definition C03_vmess_packet_limit := @encode_packet_v_too_big.
+(* Shadowsocks UDP legacy datagram *)
+Definition C03_ssudp_legacy := @roundtrip_legacy.
+(* 2022 AES client packet (separate header, session subkey, nonce from ids) *)
+Definition C03_ssudp_aes_client := @roundtrip_aes_client_plain.
+(* ... with identity header and user table *)
+Definition C03_ssudp_aes_client_eih := @roundtrip_aes_client_eih.
+(* 2022 AES server packet *)
+Definition C03_ssudp_aes_server := @roundtrip_aes_server.
+(* 2022 XChaCha client packet *)
+Definition C03_ssudp_xchacha_client := @roundtrip_xchacha_client.
+(* 2022 XChaCha server packet *)
+Definition C03_ssudp_xchacha_server := @roundtrip_xchacha_server.
+
+Check @C03_vmess_body_stream.
+Check @C03_vmess_body_packet.
+Check @C03_vmess_packet_limit.
+Check @C03_ssudp_legacy.
+Check @C03_ssudp_aes_client.
+Check @C03_ssudp_aes_client_eih.
+Check @C03_ssudp_aes_server.
+Check @C03_ssudp_xchacha_client.
+Check @C03_ssudp_xchacha_server.
 Check @C03_ss_chunk_roundtrip.
 Check @C03_ss_chunk_roundtrip_payload.
 Check @C03_ss_sender_limits.
@@ -109,3 +137,12 @@ Print Assumptions C03_vmess_addr.
 Print Assumptions C03_hex.
 Print Assumptions C03_constants_match_source.
 Print Assumptions C03_legacy_limit_is_spec.
+Print Assumptions C03_vmess_body_stream.
+Print Assumptions C03_vmess_body_packet.
+Print Assumptions C03_vmess_packet_limit.
+Print Assumptions C03_ssudp_legacy.
+Print Assumptions C03_ssudp_aes_client.
+Print Assumptions C03_ssudp_aes_client_eih.
+Print Assumptions C03_ssudp_aes_server.
+Print Assumptions C03_ssudp_xchacha_client.
+Print Assumptions C03_ssudp_xchacha_server.
